@@ -43,7 +43,7 @@ Definition C12_counts_partition_full_statement (R : rules) : Prop :=
   forall (only_snvs : bool) (recs : list vrec) (chrlen : Z -> option Z) (cid : Z),
   sorted_recs only_snvs recs ->
   exists rows cr,
-    read_rows R only_snvs None recs = Some rows /\
+    read_rows only_snvs None recs = Some rows /\
     process_rows R chrlen cid rows = Some cr /\
     let d := cr_row cr in
     let s := spec_of only_snvs recs in
@@ -63,7 +63,7 @@ Print Assumptions C12_counts_partition_legacy_refuted.
 Theorem C12_counts_partition_legacy_refuted_witness :
   exists recs, sorted_recs false recs /\
   exists rows cr,
-    read_rows legacy_rules false None recs = Some rows /\
+    read_rows false None recs = Some rows /\
     process_rows legacy_rules (fun _ => None) 1 rows = Some cr /\
     d_het (cr_row cr) = 5 /\ s_het (spec_of false recs) = 3 /\
     d_unphased (cr_row cr) = 3 /\ s_unphased (spec_of false recs) = 1.
@@ -71,17 +71,18 @@ Proof. exact counts_partition_legacy_witness. Qed.
 Print Assumptions C12_counts_partition_legacy_refuted_witness.
 
 (* second defect of the code as found, met while building the check: a phased heterozygous call whose
-   PS is "." gets block id None; together with an integer id `sorted(blocks.keys())` raises TypeError.
+   PS is "." gets block id None and is put into a block of that name; together with an integer id
+   `sorted(blocks.keys())` raises TypeError (haplotag, by contrast, skips block id None).
    Witness 0|1:100  1|0:.  (signature stats:phased-call-missing-ps). *)
 Theorem C12_no_crash_legacy_refuted :
   exists recs, sorted_recs false recs /\
-  exists rows, read_rows legacy_rules false None recs = Some rows /\
+  exists rows, read_rows false None recs = Some rows /\
                process_rows legacy_rules (fun _ => None) 1 rows = None.
 Proof. exact no_crash_legacy_refuted. Qed.
 Print Assumptions C12_no_crash_legacy_refuted.
 
 (* With the repaired classification (calls whose genotype is missing or partially missing are skipped;
-   PS "." means phase set 0) the full statement HOLDS, for all record lists VcfReader accepts, with and
+   a `|` call whose PS is "." names no phase set and counts as unphased) the full statement HOLDS, for all record lists VcfReader accepts, with and
    without --only-snvs: no exception, and all ten integer counts equal the independent count. *)
 Theorem C12_counts_partition_repaired : C12_counts_partition_full_statement repaired_rules.
 Proof. exact chrom_repaired_statement. Qed.
@@ -96,7 +97,7 @@ Theorem C12_block_list_spec :
   forall (only_snvs : bool) (recs : list vrec) (chrlen : Z -> option Z) (cid : Z),
   sorted_recs only_snvs recs ->
   exists rows cr,
-    read_rows repaired_rules only_snvs None recs = Some rows /\
+    read_rows only_snvs None recs = Some rows /\
     process_rows repaired_rules chrlen cid rows = Some cr /\
     cr_blocklist cr =
       map (fun l : Z * Z * Z * Z => match l with (i, f, t, n) => (Some i, f, t, n) end)
@@ -128,7 +129,7 @@ Theorem C12_block_lengths_bounded :
   forall (only_snvs : bool) (recs : list vrec) (chrlen : Z -> option Z) (cid : Z),
   sorted_recs only_snvs recs ->
   exists rows cr,
-    read_rows repaired_rules only_snvs None recs = Some rows /\
+    read_rows only_snvs None recs = Some rows /\
     process_rows repaired_rules chrlen cid rows = Some cr /\
     0 <= d_bmin (cr_row cr) /\ d_bmin (cr_row cr) <= d_bmax (cr_row cr) /\ d_bmax (cr_row cr) <= d_bsum (cr_row cr) /\
     d_bsum (cr_row cr) <= s_span (spec_of only_snvs recs).
